@@ -141,7 +141,7 @@ def _native(n, m, p, values, sigma):
 
 
 def _witness(eng, acc, n, m, p, cpts, scores, cap=60):
-    if acc.c.get("witness_tried", 0) >= cap:
+    if acc.total("witness_tried") >= cap:
         return
     acc.inc("witness_tried")
     model, delta = robust_model(eng)
